@@ -38,12 +38,17 @@ def c_op(o):
         return "LRead %s %s %s %s" % (coq_bool(o["unc"]), cz(o["o"]), c_list([c_rec(r) for r in (o.get("recs") or [])]), coq_N(o["end"]))
     if k == "state":
         return "LState %s %s %s" % (cz(o["newest"]), cz(o["oldest"]), cz(o["hw"]))
+    if k == "clean":
+        return "LClean %s" % cz(o["ttl"])
+    if k == "layout":
+        return "LLayout %s" % c_list(["(%s, %s, %s)" % (cz(a), cz(b), cz(c)) for a, b, c in o["lay"]])
     raise ValueError(k)
 
 
 def c_case(c):
-    return "{| lc_maxb := %s; lc_cc := %s; lc_ops := [\n   %s] |}" % (
-        cz(c["maxb"]), coq_bool(c["cc"]), ";\n   ".join(c_op(o) for o in c["ops"]))
+    return "{| lc_maxb := %s; lc_cc := %s; lc_lim := mkLimits %s %s %s; lc_ops := [\n   %s] |}" % (
+        cz(c["maxb"]), coq_bool(c["cc"]), cz(c.get("ret_bytes", 0)), cz(c.get("ret_msgs", 0)), cz(c.get("ret_age", 0)),
+        ";\n   ".join(c_op(o) for o in c["ops"]))
 
 
 def eval_log_cases(ctx, cases, tag, shard=40):
@@ -51,7 +56,7 @@ def eval_log_cases(ctx, cases, tag, shard=40):
     jobs = []
     for s in range(0, len(cases), shard):
         part = cases[s:s + shard]
-        txt = "From LB Require Import Base.Prelude Log.Model Log.Check.\nOpen Scope Z_scope.\n"
+        txt = "From LB Require Import Base.Prelude Log.Model Log.Retention Log.Check.\nOpen Scope Z_scope.\n"
         txt += "Definition CS : list lcase := [\n %s].\n" % ";\n ".join(c_case(c) for c in part)
         txt += "Definition M := Eval vm_compute in lcases_mismatches CS 0.\nPrint M.\n"
         jobs.append((("cases_%s_%d" % (tag, len(jobs)), txt), part))
